@@ -360,3 +360,84 @@ S('fix1-normpath-variant', ['C01'], [('trashcli/put/core/trashee.py',
   "    basename = os.path.basename(path.rstrip(os.path.sep))\n    return (basename == \".\") or (basename == \"..\")",
   "    basename = os.path.basename(path)\n    norm = os.path.basename(os.path.normpath(path))\n    return basename in ('.', '..') or norm in ('.', '..')")],
   'guard rewritten with normpath plus the literal basename')
+
+# ------------------------------------------------------------------ C18
+ORIGLOC = 'trashcli/put/original_location.py'
+F('c18-realpath-whole-arg', {'C18': ['R18.2', 'R18.4']}, [(ORIGLOC,
+  "        normalized_path = os.path.normpath(path)\n",
+  "        normalized_path = self.fs.realpath(os.path.normpath(path))\n")],
+  'original location computed from realpath of the whole argument')
+F('c18-no-normpath-in-move', {'C18': ['R18.3']}, [(PUTDIR,
+  "    fs.move(os.path.normpath(src), dest)", "    fs.move(src, dest)")],
+  'trailing slashes reach the move: "link/" moves the directory behind the link')
+F('c18-move-realpath', {'C18': ['R18.3', 'R18.2'], 'C01': ['R01.6']}, [(PUTDIR,
+  "    fs.move(os.path.normpath(src), dest)", "    fs.move(fs.realpath(os.path.normpath(src)), dest)")],
+  'move acts on the resolved path')
+F('c18-volume-of-entry', {'C05': ['R05.3'], 'C07': ['R07.4']}, [('trashcli/put/fs/volume_of_parent.py',
+  "        parent_realpath = ParentRealpathFs(self.fs).parent_realpath(path)\n        return self.fs.volume_of(parent_realpath)",
+  "        return self.fs.volume_of(self.fs.realpath(path))")],
+  'volume of the entry computed from the resolved entry instead of its parent')
+F('c18-restore-copies', {'C18': ['R18.5'], 'C15': ['R15.1']}, [('trashcli/restore/file_system.py',
+  "    def move(self, path, dest):\n        return fs.move(path, dest)",
+  "    def move(self, path, dest):\n        import shutil\n        shutil.copy2(path, dest)\n        os.remove(path)")],
+  'restore copies the payload back (dereferences links)')
+S('c18-abspath-added', ['C18', 'C01'], [(PUTDIR,
+  "    fs.move(os.path.normpath(src), dest)", "    fs.move(os.path.abspath(os.path.normpath(src)), dest)")],
+  'abspath added around the normalised source')
+
+# ------------------------------------------------------------------ C06
+F('c06-no-probe', {'C06': ['R06.1', 'R06.3']}, [(RESTORER,
+  "        if not overwrite and self.read_fs.path_exists(trashed_file.original_location):",
+  "        if False:")],
+  'existence probe removed')
+F('c06-probe-basename', {'C06': ['R06.1']}, [(RESTORER,
+  "        if not overwrite and self.read_fs.path_exists(trashed_file.original_location):",
+  "        if not overwrite and self.read_fs.path_exists(os.path.basename(trashed_file.original_location)):")],
+  'probe looks at the base name only')
+F('c06-handler-keyerror', {'C06': ['R06.3']}, [('trashcli/restore/restore_asking_the_user.py',
+  "        except IOError as e:\n            return Left(Die(e))", "        except KeyError as e:\n            return Left(Die(e))")],
+  'refusal no longer caught')
+F('c06-move-before-probe', {'C06': ['R06.1']}, [(RESTORER,
+  """        if not overwrite and self.read_fs.path_exists(trashed_file.original_location):
+            raise IOError(
+                'Refusing to overwrite existing file "%s".' % os.path.basename(
+                    trashed_file.original_location))
+        else:
+            parent = os.path.dirname(trashed_file.original_location)
+            self.write_fs.mkdirs(parent)
+
+        self.write_fs.move(trashed_file.original_file, trashed_file.original_location)
+""",
+  """        parent = os.path.dirname(trashed_file.original_location)
+        self.write_fs.mkdirs(parent)
+        self.write_fs.move(trashed_file.original_file, trashed_file.original_location)
+        if not overwrite and self.read_fs.path_exists(trashed_file.original_location):
+            raise IOError(
+                'Refusing to overwrite existing file "%s".' % os.path.basename(
+                    trashed_file.original_location))
+""")],
+  'move happens before the probe')
+F('fix5-reverted', {'C06': ['R06.2']}, [('trashcli/restore/file_system.py',
+  "        return os.path.lexists(path)", "        return os.path.exists(path)")],
+  'destination probe follows symlinks again')
+F('c06-refusal-exits-zero', {'C06': ['R06.3']}, [('trashcli/restore/real_output.py',
+  "        self.printerr(error)\n        self.exit(1)", "        self.printerr(error)\n        self.exit(0)")],
+  'refusal exits with status 0')
+S('c06-overwrite-or-form', ['C06', 'C15'], [(RESTORER,
+  """        if not overwrite and self.read_fs.path_exists(trashed_file.original_location):
+            raise IOError(
+                'Refusing to overwrite existing file "%s".' % os.path.basename(
+                    trashed_file.original_location))
+        else:
+            parent = os.path.dirname(trashed_file.original_location)
+            self.write_fs.mkdirs(parent)
+""",
+  """        if overwrite or not self.read_fs.path_exists(trashed_file.original_location):
+            parent = os.path.dirname(trashed_file.original_location)
+            self.write_fs.mkdirs(parent)
+        else:
+            raise IOError(
+                'Refusing to overwrite existing file "%s".' % os.path.basename(
+                    trashed_file.original_location))
+""")],
+  'guard written as "if overwrite or not exists"')
